@@ -123,8 +123,13 @@ def run(ctx):
                         if rd:
                             why.append('guard at line %d compares pool state read outside the region (line %s)' % (g.line, [c.line for c in rd]))
                             continue
-                        rej = g.true_edges if what == 'fullness' and g.op in ('Ge', 'Gt', 'Eq') else (
-                            g.true_edges if what == 'staleness' and g.op == 'Ne' else g.false_edges)
+                        if what == 'fullness':
+                            # whichever way round the comparison is written: the rejecting arm is the one on which len < size cannot hold
+                            a_len_ = has(g.a_orig, 'call:std::collections::vec_deque::VecDeque::len') or has(g.a_orig, 'call:' + POOL + '::count')
+                            rel_t = set(CMP_REL[g.op]) if a_len_ else {{'lt': 'gt', 'gt': 'lt', 'eq': 'eq'}[x] for x in CMP_REL[g.op]}
+                            rej = g.true_edges if 'lt' not in rel_t else g.false_edges
+                        else:
+                            rej = g.true_edges if g.op == 'Ne' else g.false_edges
                         r2 = body.reach([b for _, b in rej])
                         if any(p.bb in r2 for p in pushes):
                             why.append('push reachable from the rejecting arm of the guard at line %d' % g.line)
